@@ -156,6 +156,29 @@ CHECKS = {
         note=COMMON_NOTE + ' The scripted world (harness/world.py) stands in for kernel TCP, select, the clock, the user queue and '
              'thread start: one script operation per loop iteration; it can deliver every segmentation and arrival order but not '
              'preemption inside an iteration (there is one provider thread per association). Reset-while-sending (EPIPE) is not in the alphabet.' + ' Partial: thread join and real select() timing are outside the world.'),
+    'C14': dict(
+        text=('Theorems C14_acceptor_refuses, C14_rejection_unchanged, C14_abort_unchanged, C14_release_surfaces, '
+              'C14_reject_delivered, C14_abort_delivered, C14_release_delivered, C14_exit_paths (Coq, no axioms): a refusing '
+              'application yields an A-ASSOCIATE-RJ with exactly its (result, source, reason) and no service; for ALL byte '
+              'values the RJ / A-ABORT / A-RELEASE-RQ survive the wire and surface as the library error with the same '
+              'values; at every point of every history the provider hands the received PDU itself to the user; leaving a '
+              'requested association normally releases, through an error aborts. Tie: the association layer on scripted '
+              'indications (all standard triples, at every point of a conversation), the acceptor with refusing '
+              'applications, the real context manager, plus refusals and aborts over real loopback TCP.'),
+        technique='Coq proof (composition of the codec round trip, framing and the closed control abstraction) + correspondence incl. real loopback',
+        design_ref='DESIGN.md section 6, C14', note=COMMON_NOTE),
+    'C15': dict(
+        text=('Theorems C15_data_intact, C15_fragment_on_the_wire, C15_status, C15_no_clobber (Coq, no axioms): composition '
+              'of C06 + C01 + C07 + C17: for EVERY data set and maximum length the stored message is reassembled with the '
+              'identical command set (SOP class / instance) and data bytes, in memory or after the file meta header; the '
+              'handler\'s status (or C000H) is the status returned; for EVERY directory content and instance UID the name '
+              'search terminates with a name that does not exist (pigeonhole over strictly lengthening candidates). Tie: real '
+              'stores over loopback TCP with real threads (3 transfer syntaxes, memory/file source, temp-file/directory/'
+              'in-memory reception, asymmetric maxima incl. 0, handler outcomes, nested data sets) and the directory storage '
+              'on prepared directories with repeated instance UIDs.'),
+        technique='Coq proof by composition of earlier theorems + pigeonhole termination proof + real loopback correspondence',
+        design_ref='DESIGN.md section 6, C15',
+        note=COMMON_NOTE + ' Partial: pydicom\'s data-set codec and OS thread scheduling / kernel TCP are observed, not modelled; data-set bytes are opaque in the theorems.'),
     'C16': dict(
         text=('Theorems C16_end_to_end, C16_user_stops (Coq, no axioms): for EVERY list of matches (any length, any mix of '
               'the two pending codes, any non-empty data sets) the user side fed with what the provider sends yields '
@@ -190,6 +213,17 @@ CHECKS = {
         design_ref='DESIGN.md section 6, C18',
         note=COMMON_NOTE + ' Tabulation driver (harness/check_C18.py) is trusted to report Status() faithfully.'),
 }
+
+CHECKS['C20'] = dict(
+    text=('Theorems C20_isolation, C20_providers, C20_message_ids_unique (Coq, no axioms): for ANY per-association step '
+          'function over an immutable configuration, ANY number of associations and ANY interleaving, each association '
+          'ends in the state of its solo run (instantiated with the provider model); message ids per thread are strictly '
+          'increasing hence unique. That the code has this separated shape is checked per run: a static audit of writes to '
+          'shared state in the run-time modules, several real providers in real threads stepped in seeded interleavings '
+          '(= model, = solo run), N concurrent loopback clients with distinguishable data against one entity, some aborting.'),
+    technique='Coq non-interference proof by induction over the schedule + shared-write audit + controlled-interleaving and loopback correspondence',
+    design_ref='DESIGN.md section 6, C20',
+    note=COMMON_NOTE + ' Partial: the theorem is about the separated model; preemption inside a Python bytecode sequence is sampled (real threads), not enumerated.')
 
 NOT_YET = 'check not built yet (work in progress; see DESIGN.md section 6 for the planned theorem and tie)'
 ALL = ['C%02d' % i for i in range(1, 21)]
